@@ -123,6 +123,15 @@ func runC26(c *Ctx) {
 			for _, ad := range c.calls(fn, byCallee("LogsBloom).addLog")) {
 				r, a := callArgs(ad.Common())
 				okAdd = a[0] == ssa.Value(mk) && rn(r) == "$r"
+				// the same frame assembled with append: make(len 1, cap len(b)+1); bs[0] = byte(i); bs = append(bs, b...)
+				if ap, ok := a[0].(*ssa.Call); ok && calleeName(ap.Common()) == "builtin:append" && rn(r) == "$r" {
+					_, aa := callArgs(ap.Common())
+					if len(aa) == 2 && aa[0] == ssa.Value(mk) && rn(aa[1]) == "$1" {
+						if k, isK := constInt(mk.Len); isK && k == 1 {
+							okLen, okCopy, okAdd = true, true, true
+						}
+					}
+				}
 			}
 			okF = okLen && okTag && okCopy && okAdd
 		}
